@@ -2034,6 +2034,9 @@ func (p *c20SkPlan) run(rep *kit.Report, env *c20SkEnv, wi *int) {
 					if n > p.Rows[len(cs.Atoms)-1] {
 						continue
 					}
+					if ci&255 == 255 && rep.Expired() {
+						break
+					}
 					cs.Part, cs.Index, cs.Cols, cs.Types, cs.Rows, cs.Layout = "skip", p.Index, cols, types, rows, layout
 					res := cs.check(env, p.NIdx)
 					evals++
@@ -2118,7 +2121,7 @@ func c20SkPlans(thorough bool) []c20SkPlan {
 		cDom = append(cDom, c20Str("C-A"), c20Str("a"))
 		bfAtoms = append(bfAtoms, mp("a"), mp("C-A"), mp("A-C"))
 		bfAtoms3 = append(bfAtoms3, mp("C"), mp("E"))
-		bfRows = [3]int{4, 3, 3}
+		bfRows = [3]int{4, 3, 2}
 	}
 	sDom := []*string{nil, c20Str("A"), c20Str("C"), c20Str("D")}
 	iDom := []*string{nil, c20Str("1"), c20Str("2")}
